@@ -53,6 +53,9 @@ fn pos_strategy() -> BoxedStrategy<usize> {
         2 => (0usize..8, prop_oneof![Just(0usize), Just(1), Just(15), Just(16), Just(17), Just(31)]).prop_map(|(b, o)| b * 32 + o),
         1 => Just(0usize),
         1 => Just(usize::MAX),
+        // the last bytes before / first bytes after a multiple of 4096 (256 vectors of 16 bytes, 128 / 256 of 32):
+        // where a per-chunk or 8-bit vector counter of a long text would wrap
+        2 => (1usize..=4, 0usize..=70).prop_map(|(k, d)| (k * 4096 + 3).saturating_sub(d)),
     ]
     .boxed()
 }
@@ -64,6 +67,8 @@ fn enc_len(tier: Tier) -> BoxedStrategy<usize> {
         4 => 0usize..=70,
         3 => (0usize..=8, 0usize..=3, 0usize..=3).prop_map(|(k, a, b)| (k * 16 + a).saturating_sub(b)),
         2 => 70usize..=hi,
+        // long texts: around multiples of 4096 bytes (vector-count boundaries of the SIMD encoders)
+        1 => (1usize..=4, 0usize..=40, 0usize..=3).prop_map(|(k, a, b)| (k * 4096 + a).saturating_sub(b)),
     ]
     .boxed()
 }
@@ -172,7 +177,7 @@ impl Sub for Bytes {
         "bytes"
     }
     fn rule(&self) -> &'static str {
-        "valid text (both alphabets, lengths 0..200 quick / ..5000 thorough, biased to multiples of 16 +-3) with 0-2 injected bytes from all 256 values (lower case, other alphabet's letters, NUL, >=0x80, punctuation) at positions relative to the 16/32-byte blocks and the scalar tail; encode / encode_raw / encode_into (into a reused destination holding a wrong symbol at every position) on generic, sse2, avx2 and the dispatcher forced to each arm, EncodedSequence::encode, from_str, Display compared with the model (ok iff all bytes in the alphabet; first offending byte reported); sweep = every length n <= 40 (quick) / 100 (thorough) x every position x every byte value; non-trivial = n > 32 (vector path taken)"
+        "valid text (both alphabets, lengths 0..200 quick / ..5000 thorough, biased to multiples of 16 +-3, plus texts around 1..4 x 4096 bytes) with 0-2 injected bytes from all 256 values (lower case, other alphabet's letters, NUL, >=0x80, punctuation) at positions relative to the 16/32-byte blocks and the scalar tail; encode / encode_raw / encode_into (into a reused destination holding a wrong symbol at every position) on generic, sse2, avx2 and the dispatcher forced to each arm, EncodedSequence::encode, from_str, Display compared with the model (ok iff all bytes in the alphabet; first offending byte reported); sweep = every length n <= 40 (quick) / 100 (thorough) x every position x every byte value, plus texts of 8192..16389 (thorough: ..32785 and 2 MiB) bytes with an invalid byte at each of the 68 positions around every multiple of 4096, alone and followed by a second one; non-trivial = n > 32 (vector path taken)"
     }
     fn cases(&self, tier: Tier) -> u64 {
         tier.pick(150_000, 4_000_000)
@@ -207,6 +212,32 @@ impl Sub for Bytes {
                 }
             }
         }
+        // long texts: one invalid byte at each of the last 66 positions before (and 2 after) every multiple of
+        // 4096 bytes, then the same with a second invalid byte at the end of the text
+        let longs: &[usize] = if tier == Tier::Thorough { &[4096, 8192, 8224, 12288 + 31, 16384 + 5, 32768 + 17] } else { &[8192, 8224, 16384 + 5] };
+        for abc in [Abc::Dna, Abc::Protein] {
+            for &n in longs {
+                for k in 1..=n / 4096 {
+                    for d in 0..68usize {
+                        let p = k * 4096 + 1 - d;
+                        if p >= n {
+                            continue;
+                        }
+                        for b in [b'x', 0xffu8] {
+                            out.push(Case { abc, base: SeqSpec::Seeded { len: n, seed: (n + k) as u64, wild_pct: 2 }, inject: vec![(p, b)] });
+                        }
+                        out.push(Case { abc, base: SeqSpec::Seeded { len: n, seed: (n + k) as u64, wild_pct: 2 }, inject: vec![(n - 1, b'y'), (p, b'x')] });
+                    }
+                }
+            }
+        }
+        if tier == Tier::Thorough {
+            // 65536 vectors of 32 bytes: a 16-bit vector counter
+            let n = (1usize << 21) + 70;
+            for p in [(1usize << 21) - 1, (1usize << 21) - 33, (1usize << 21) + 1, (1usize << 20) - 1] {
+                out.push(Case { abc: Abc::Dna, base: SeqSpec::Seeded { len: n, seed: 21, wild_pct: 2 }, inject: vec![(p, b'x')] });
+            }
+        }
         out
     }
     fn check(&self, case: &Case, _cx: &Cx) -> Verdict {
@@ -220,6 +251,8 @@ impl Sub for Bytes {
         info.class_if(case.abc == Abc::Protein, "protein");
         info.class_if(bad.is_empty(), "valid");
         info.class_if(bad.len() >= 2, "two-invalid-bytes");
+        info.class_if(n >= 4096, "text>=4096-bytes");
+        info.class_if(bad.first().map_or(false, |&p| p >= 4000 && (p % 4096 >= 4096 - 64)), "first-invalid-byte-in-last-64-before-a-4096-multiple");
         if let Some(&p) = bad.first() {
             let tail_start = n / 32 * 32;
             info.class_if(p >= tail_start, "invalid-in-avx2-tail");
